@@ -27,7 +27,7 @@ class Q:
     """One solver query: a harness entry point compiled with concrete shape parameters; all data inputs symbolic."""
     def __init__(self, name, src, entry, defs=None, unwind=8, unwindset=None, rt=(), tier='quick', timeout=None,
                  solvers=None, labels=None, shape=None, cdefs=None, bughunt=False, unwind_is_property=False,
-                 params=None, finding_class=None, note=None, nsw=False, new_limit=None, mem_gb=None, rt_unwind=260, mem_unwind=130):
+                 params=None, finding_class=None, note=None, nsw=False, new_limit=None, mem_gb=None, rt_unwind=260, mem_unwind=130, memcheck=False):
         self.name, self.src, self.entry = name, src, entry
         self.defs = dict(defs or {})
         self.unwind, self.unwindset = unwind, list(unwindset or [])
@@ -36,6 +36,7 @@ class Q:
         self.shape = shape if shape is not None else dict(self.defs, **({'params': list(params)} if params else {}))
         self.cdefs = dict(cdefs or {}); self.bughunt = bughunt; self.unwind_is_property = unwind_is_property
         self.mem_unwind = mem_unwind; self.params = list(params or []); self.rt_unwind = rt_unwind; self.note = note; self.nsw = nsw; self.new_limit = new_limit; self.mem_gb = mem_gb
+        self.memcheck = memcheck   # replay also under valgrind memcheck (labels whose failure is a use of uninitialised bytes)
 
 def sh(cmd, timeout=None, cwd=None, mem_gb=None, env=None):
     def pre():
@@ -255,31 +256,43 @@ def get_trace(q, outd, us, prop, timeout, mem):
 NATIVE_FLAGS = ['-std=c++14', '-O1', '-g', '-DNDEBUG', '-DBOOSTORG_GIL_VERIF', '-w', '-fsanitize=address,undefined,float-cast-overflow',
                 '-fno-sanitize-recover=all', '-fno-omit-frame-pointer']
 
-def build_native(src, defs, rt, outdir, tag='native'):
+MEMCHECK_FLAGS = ['-std=c++14', '-O0', '-gdwarf-4', '-DNDEBUG', '-DBOOSTORG_GIL_VERIF', '-w', '-fno-omit-frame-pointer']   # unoptimised: every local in its own fresh frame
+
+def build_native(src, defs, rt, outdir, tag='native', flags=None):
+    flags = flags or NATIVE_FLAGS
     exe = os.path.join(outdir, tag)
     with keyed_lock(exe):
         if os.path.exists(exe): return exe
         os.makedirs(outdir, exist_ok=True)
         objs = []
         for m in ['vp_rt'] + ['rt_' + x for x in rt]:
-            o = os.path.join(outdir, m + '.o')
-            r = sh(['clang-14', '-O1', '-g', '-w', '-c', '-I', os.path.join(ROOT, 'rt'), os.path.join(ROOT, 'rt', m + '.c'), '-o', o], timeout=300)
+            o = os.path.join(outdir, m + '.' + tag + '.o')
+            r = sh(['clang-14', '-O1', '-gdwarf-4', '-w', '-c', '-I', os.path.join(ROOT, 'rt'), os.path.join(ROOT, 'rt', m + '.c'), '-o', o], timeout=300)
             if r['rc'] != 0: raise BuildError('native rt build failed: ' + r['err'][-3000:])
             objs.append(o)
-        cmd = [CLANG] + NATIVE_FLAGS + ['-rdynamic', '-I', INC, '-I', os.path.join(ROOT, 'harness'), '-I', os.path.join(ROOT, 'rt')] + \
+        cmd = [CLANG] + flags + ['-rdynamic', '-I', INC, '-I', os.path.join(ROOT, 'harness'), '-I', os.path.join(ROOT, 'rt')] + \
               ['-D%s=%s' % kv for kv in sorted(defs.items())] + \
               [os.path.join(ROOT, 'harness', src), os.path.join(ROOT, 'rt', 'native_rt.cpp')] + objs + ['-ldl', '-o', exe]
         r = sh(cmd, timeout=900)
         if r['rc'] != 0: raise BuildError('native build failed: ' + r['err'][-3000:])
         return exe
 
-def run_native(exe, entry, inputs, timeout=60, params=()):
+def run_native(exe, entry, inputs, timeout=60, params=(), wrapper=()):
     inp = exe + '.%d.in' % threading.get_ident()
     open(inp, 'w').write('\n'.join(str(v) for v in inputs) + '\n')
     env = dict(os.environ, VP_PARAMS=','.join(str(int(p)) for p in params), ASAN_OPTIONS='detect_leaks=0:abort_on_error=0:exitcode=77', UBSAN_OPTIONS='print_stacktrace=1:exitcode=78')
-    r = sh([exe, entry, inp], timeout=timeout, env=env)
+    r = sh(list(wrapper) + [exe, entry, inp], timeout=timeout, env=env)
     os.unlink(inp)
     return r
+
+def memcheck_confirms(r):
+    """valgrind memcheck run of the unoptimised native build: a use of uninitialised bytes reported with a boost::gil frame on its stack"""
+    txt = r['out'] + r['err']
+    for blk in re.split(r'\n==\d+== \n', txt):
+        if 'uninitialised' in blk and 'boost::gil' in blk:
+            m = re.search(r'at 0x[0-9A-F]+: ([^\n]{0,120})', blk)
+            return 'memcheck:uninitialised_value_used' + ((' at ' + m.group(1)) if m else '')
+    return None
 
 def replay_confirms(r, label):
     """does the native run reproduce the solver's counterexample?  prop.* labels must fail the same assertion natively
@@ -396,6 +409,11 @@ def run_query(pid, q, wdir, tier, findings):
                 nr = run_native(exe, q.entry, inputs or [], timeout=20 if lab == 'unwind' else 60, params=q.params)
                 conf = replay_confirms(nr, lab)
                 f['native'] = conf; f['native_tail'] = (nr['out'] + nr['err'])[-1500:]
+                if not conf and q.memcheck:
+                    exe2 = build_native(q.src, q.defs, q.rt, os.path.join(tud, 'native'), tag='native_memcheck', flags=MEMCHECK_FLAGS)
+                    nr2 = run_native(exe2, q.entry, inputs or [], timeout=300, params=q.params, wrapper=['valgrind', '-q', '--error-exitcode=79', '--num-callers=30'])
+                    conf = memcheck_confirms(nr2)
+                    if conf: f['native'] = conf; f['native_tail'] = (nr2['out'] + nr2['err'])[-2500:]
             except BuildError as e:
                 conf = None; f['native'] = 'build_error'; f['native_tail'] = str(e)[-1500:]
             if kf: f['status'] = 'known_finding'; f['finding'] = kf['text']
